@@ -32,10 +32,10 @@
 //! (a panic = abort of the shipped daemon, which is built with panic=abort).
 use std::io::{Read, Write};
 
-use super::c26::{decode_vs, field, key_material, mk_cookie, Dec, Issued};
+use super::c26::{Dec, Issued, decode_vs, field, key_material, mk_cookie};
 use super::common::{self, Ctx};
-use crate::keyset::verif_probe::gi as probe;
 use crate::keyset::KeySetProvider;
+use crate::keyset::verif_probe::gi as probe;
 use crate::packet::{AesSivCmac512, Cipher};
 
 // ---------------------------------------------------------------------------------
@@ -53,7 +53,12 @@ struct LogWriter {
 
 impl LogWriter {
     fn new(per: usize, fail_at: Option<usize>) -> Self {
-        LogWriter { bytes: Vec::new(), calls: 0, per, fail_at }
+        LogWriter {
+            bytes: Vec::new(),
+            calls: 0,
+            per,
+            fail_at,
+        }
     }
 }
 
@@ -64,7 +69,9 @@ impl Write for LogWriter {
         if let Some(f) = self.fail_at {
             let room = f.saturating_sub(self.bytes.len());
             if room == 0 && !buf.is_empty() {
-                return Err(std::io::Error::other("verif: injected write failure (disk full / crash)"));
+                return Err(std::io::Error::other(
+                    "verif: injected write failure (disk full / crash)",
+                ));
             }
             n = n.min(room);
         }
@@ -158,7 +165,13 @@ fn build_set(spec: SetSpec) -> Built {
             let s2c = key_material(alg, 4, 1 + r as u8 * 2);
             let c2s = key_material(alg, 4, 2 + r as u8 * 2);
             let bytes = prov.get().encode_cookie(&mk_cookie(alg, &s2c, &c2s));
-            pre.push(Issued { bytes, alg, s2c, c2s, rot: r as u64 });
+            pre.push(Issued {
+                bytes,
+                alg,
+                s2c,
+                c2s,
+                rot: r as u64,
+            });
         }
         if r < spec.rot {
             prov.rotate();
@@ -167,7 +180,13 @@ fn build_set(spec: SetSpec) -> Built {
     let mut w = LogWriter::new(usize::MAX, None);
     prov.store(&mut w).expect("store into a Vec cannot fail");
     let view = probe::view(&prov.get());
-    Built { spec, prov, view, pre, stream: w.bytes }
+    Built {
+        spec,
+        prov,
+        view,
+        pre,
+        stream: w.bytes,
+    }
 }
 
 // ---------------------------------------------------------------------------------
@@ -181,7 +200,11 @@ enum Loaded {
 }
 
 fn load_bytes(bytes: &[u8], chunk: usize, h: usize) -> Loaded {
-    let mut rd = Chunked { data: bytes, pos: 0, chunk };
+    let mut rd = Chunked {
+        data: bytes,
+        pos: 0,
+        chunk,
+    };
     match common::catch(|| KeySetProvider::load(&mut rd, h)) {
         Err(p) => Loaded::Panic(p),
         Ok(Err(_)) => Loaded::Rejected,
@@ -197,7 +220,10 @@ struct UseObs {
 
 impl UseObs {
     fn text(&self) -> String {
-        format!("fresh={:?} pre={:?} after_rotate={:?}", self.fresh, self.pre, self.fresh_after_rotate)
+        format!(
+            "fresh={:?} pre={:?} after_rotate={:?}",
+            self.fresh, self.pre, self.fresh_after_rotate
+        )
     }
 }
 
@@ -230,7 +256,11 @@ fn use_set(mut p: KeySetProvider, pre: &[Issued]) -> Result<UseObs, String> {
     }
     common::catch(|| p.rotate()).map_err(|e| format!("use: rotate panicked: {e}"))?;
     let fresh_after_rotate = issue_and_decode(&p, "use after rotate")?;
-    Ok(UseObs { fresh, pre: pre_obs, fresh_after_rotate })
+    Ok(UseObs {
+        fresh,
+        pre: pre_obs,
+        fresh_after_rotate,
+    })
 }
 
 /// What the harness wrote into the header of the file under test (NOT read back from the
@@ -258,7 +288,11 @@ fn run_corrupt(ctx: &Ctx, b: &Built, file: &[u8], chunk: usize, kind: &str, trac
                 Some((t, ..)) if t > i64::MAX as u64 => "C27:load-time-overflow",
                 _ => "C27:load-panic",
             };
-            ctx.violation(class, format!("KeySetProvider::load panicked (daemon would abort at start-up): {p}"), trace);
+            ctx.violation(
+                class,
+                format!("KeySetProvider::load panicked (daemon would abort at start-up): {p}"),
+                trace,
+            );
             ctx.inc(&format!("{kind}_load_panicked"));
             format!("load=panic({p})")
         }
@@ -275,7 +309,9 @@ fn run_corrupt(ctx: &Ctx, b: &Built, file: &[u8], chunk: usize, kind: &str, trac
             match use_set(p, &b.pre) {
                 Err(panic) => {
                     let class = match hdr {
-                        Some((_, _, primary, len)) if primary >= len => "C27:load-primary-out-of-range",
+                        Some((_, _, primary, len)) if primary >= len => {
+                            "C27:load-primary-out-of-range"
+                        }
                         _ => "C27:loaded-set-unusable",
                     };
                     ctx.violation(
@@ -291,7 +327,10 @@ fn run_corrupt(ctx: &Ctx, b: &Built, file: &[u8], chunk: usize, kind: &str, trac
                     if o.fresh != [Dec::Same; 2] || o.fresh_after_rotate != [Dec::Same; 2] {
                         ctx.violation(
                             "C27:loaded-set-unusable",
-                            format!("loaded key set cannot decode its own new cookies: {}", o.text()),
+                            format!(
+                                "loaded key set cannot decode its own new cookies: {}",
+                                o.text()
+                            ),
                             trace,
                         );
                     }
@@ -301,7 +340,10 @@ fn run_corrupt(ctx: &Ctx, b: &Built, file: &[u8], chunk: usize, kind: &str, trac
                             Dec::Rejected => ctx.inc("pre_cookie_rejected"),
                             _ => ctx.violation(
                                 "C27:loaded-set-decodes-wrong-keys",
-                                format!("pre-crash cookie (rotation {}) decodes to other session keys", c.rot),
+                                format!(
+                                    "pre-crash cookie (rotation {}) decodes to other session keys",
+                                    c.rot
+                                ),
                                 trace,
                             ),
                         }
@@ -331,8 +373,19 @@ fn store_faults(ctx: &Ctx, b: &Built) {
     let len = b.stream.len();
     // layout assumptions of the fault grammar (not an oracle): checked, not trusted
     let hdr = header_of(&b.stream);
-    if len != 20 + 64 * b.n() || hdr.map(|h| (h.1, h.2, h.3)) != Some((b.view.id_offset, b.view.primary, b.n() as u32)) {
-        ctx.violation("C27:format-assumption", format!("harness layout assumption broken: len {len}, header {hdr:?}, view {:?}/{:?}/{}", b.view.id_offset, b.view.primary, b.n()), format!("prefix;{tag};k={len};chunk=0"));
+    if len != 20 + 64 * b.n()
+        || hdr.map(|h| (h.1, h.2, h.3)) != Some((b.view.id_offset, b.view.primary, b.n() as u32))
+    {
+        ctx.violation(
+            "C27:format-assumption",
+            format!(
+                "harness layout assumption broken: len {len}, header {hdr:?}, view {:?}/{:?}/{}",
+                b.view.id_offset,
+                b.view.primary,
+                b.n()
+            ),
+            format!("prefix;{tag};k={len};chunk=0"),
+        );
     }
     // short writes: the stream must not depend on the writer
     for per in [1usize, 3, 64] {
@@ -357,13 +410,27 @@ fn store_faults(ctx: &Ctx, b: &Built) {
             let r = common::catch(|| b.prov.store(&mut w));
             ctx.inc("evaluations");
             ctx.inc("store_runs");
-            let trace = format!("wfail;{tag};k={k};per={}", if per == usize::MAX { 0 } else { per });
+            let trace = format!(
+                "wfail;{tag};k={k};per={}",
+                if per == usize::MAX { 0 } else { per }
+            );
             match r {
-                Err(p) => ctx.violation("C27:store-panic", format!("store panicked on a write error: {p}"), trace),
-                Ok(Ok(())) => ctx.violation("C27:store-error-not-reported", format!("store returned Ok although the writer failed after {k} of {len} bytes"), trace),
+                Err(p) => ctx.violation(
+                    "C27:store-panic",
+                    format!("store panicked on a write error: {p}"),
+                    trace,
+                ),
+                Ok(Ok(())) => ctx.violation(
+                    "C27:store-error-not-reported",
+                    format!(
+                        "store returned Ok although the writer failed after {k} of {len} bytes"
+                    ),
+                    trace,
+                ),
                 Ok(Err(_)) => {
                     ctx.inc("store_write_error_reported");
-                    let same_prefix = w.bytes.len() == k && (k <= 8 || w.bytes[8..] == b.stream[8..k]);
+                    let same_prefix =
+                        w.bytes.len() == k && (k <= 8 || w.bytes[8..] == b.stream[8..k]);
                     if !same_prefix {
                         ctx.violation("C27:store-stream-depends-on-writer", format!("after a write error at {k} the file holds {} bytes that are not the {k}-byte prefix of the stream", w.bytes.len()), trace);
                     }
@@ -374,18 +441,30 @@ fn store_faults(ctx: &Ctx, b: &Built) {
 }
 
 fn prefix_case(ctx: &Ctx, b: &Built, k: usize, chunk: usize) -> String {
-    let trace = format!("prefix;{};k={k};chunk={}", b.spec.tag(), if chunk == usize::MAX { 0 } else { chunk });
+    let trace = format!(
+        "prefix;{};k={k};chunk={}",
+        b.spec.tag(),
+        if chunk == usize::MAX { 0 } else { chunk }
+    );
     let full = k == b.stream.len();
     ctx.inc("evaluations");
     ctx.inc("crash_prefix_cases");
     match load_bytes(&b.stream[..k], chunk, b.spec.h) {
         Loaded::Panic(p) => {
-            ctx.violation("C27:load-panic", format!("load of the {k}-byte prefix panicked: {p}"), trace);
+            ctx.violation(
+                "C27:load-panic",
+                format!("load of the {k}-byte prefix panicked: {p}"),
+                trace,
+            );
             format!("load=panic({p})")
         }
         Loaded::Rejected => {
             if full {
-                ctx.violation("C27:restore-fails", "load rejects the complete, healthy file".to_string(), trace);
+                ctx.violation(
+                    "C27:restore-fails",
+                    "load rejects the complete, healthy file".to_string(),
+                    trace,
+                );
             } else {
                 ctx.inc("crash_prefix_rejected");
             }
@@ -408,18 +487,37 @@ fn prefix_case(ctx: &Ctx, b: &Built, k: usize, chunk: usize) -> String {
             // the restored set is used: every valid pre-crash cookie must decode to its keys
             match use_set(p, &b.pre) {
                 Err(panic) => {
-                    ctx.violation("C27:loaded-set-unusable", format!("set loaded from a {k}-byte prefix panics when used: {panic}"), trace);
+                    ctx.violation(
+                        "C27:loaded-set-unusable",
+                        format!("set loaded from a {k}-byte prefix panics when used: {panic}"),
+                        trace,
+                    );
                     format!("load=Ok equal={same} use=panic({panic})")
                 }
                 Ok(o) => {
                     ctx.inc("sets_used_ok");
                     if o.fresh != [Dec::Same; 2] || o.fresh_after_rotate != [Dec::Same; 2] {
-                        ctx.violation("C27:loaded-set-unusable", format!("restored key set cannot decode its own new cookies: {}", o.text()), trace.clone());
+                        ctx.violation(
+                            "C27:loaded-set-unusable",
+                            format!(
+                                "restored key set cannot decode its own new cookies: {}",
+                                o.text()
+                            ),
+                            trace.clone(),
+                        );
                     }
                     for (c, d) in b.pre.iter().zip(&o.pre) {
-                        let want = if b.pre_valid(c) { Dec::Same } else { Dec::Rejected };
+                        let want = if b.pre_valid(c) {
+                            Dec::Same
+                        } else {
+                            Dec::Rejected
+                        };
                         if *d == want {
-                            ctx.inc(if want == Dec::Same { "pre_cookie_decoded" } else { "pre_cookie_rejected" });
+                            ctx.inc(if want == Dec::Same {
+                                "pre_cookie_decoded"
+                            } else {
+                                "pre_cookie_rejected"
+                            });
                         } else {
                             ctx.violation(
                                 "C27:restored-set-cookie-validity",
@@ -445,7 +543,10 @@ struct HdrFault {
 
 impl HdrFault {
     fn degree(&self) -> usize {
-        self.time.is_some() as usize + self.off.is_some() as usize + self.primary.is_some() as usize + self.len.is_some() as usize
+        self.time.is_some() as usize
+            + self.off.is_some() as usize
+            + self.primary.is_some() as usize
+            + self.len.is_some() as usize
     }
     fn apply(&self, stream: &[u8]) -> Vec<u8> {
         let mut f = stream.to_vec();
@@ -467,13 +568,24 @@ impl HdrFault {
         fn s<T: std::fmt::Display>(o: Option<T>) -> String {
             o.map_or("keep".to_string(), |v| v.to_string())
         }
-        format!("time={};off={};primary={};len={}", s(self.time), s(self.off), s(self.primary), s(self.len))
+        format!(
+            "time={};off={};primary={};len={}",
+            s(self.time),
+            s(self.off),
+            s(self.primary),
+            s(self.len)
+        )
     }
     fn parse(parts: &[&str]) -> HdrFault {
         fn g<T: std::str::FromStr>(parts: &[&str], n: &str) -> Option<T> {
             field(parts, n).and_then(|v| v.parse().ok())
         }
-        HdrFault { time: g(parts, "time"), off: g(parts, "off"), primary: g(parts, "primary"), len: g(parts, "len") }
+        HdrFault {
+            time: g(parts, "time"),
+            off: g(parts, "off"),
+            primary: g(parts, "primary"),
+            len: g(parts, "len"),
+        }
     }
 }
 
@@ -491,16 +603,25 @@ fn header_faults(ctx: &Ctx, b: &Built, max_degree: usize) {
     let mut times: Vec<u64> = v32.iter().map(|v| *v as u64).collect();
     times.extend([i64::MAX as u64, 1 << 63, u64::MAX]);
     let opt = |vals: &[u32], cur: u32| -> Vec<Option<u32>> {
-        std::iter::once(None).chain(vals.iter().filter(|v| **v != cur).map(|v| Some(*v))).collect()
+        std::iter::once(None)
+            .chain(vals.iter().filter(|v| **v != cur).map(|v| Some(*v)))
+            .collect()
     };
-    let topt: Vec<Option<u64>> = std::iter::once(None).chain(times.iter().filter(|v| **v != t0).map(|v| Some(*v))).collect();
+    let topt: Vec<Option<u64>> = std::iter::once(None)
+        .chain(times.iter().filter(|v| **v != t0).map(|v| Some(*v)))
+        .collect();
     let (oo, po, lo) = (opt(&v32, o0), opt(&v32, p0), opt(&v32, l0));
     for degree in 1..=max_degree {
         for &time in &topt {
             for &off in &oo {
                 for &primary in &po {
                     for &len in &lo {
-                        let f = HdrFault { time, off, primary, len };
+                        let f = HdrFault {
+                            time,
+                            off,
+                            primary,
+                            len,
+                        };
                         if f.degree() != degree {
                             continue;
                         }
@@ -522,7 +643,14 @@ fn bit_flips(ctx: &Ctx, b: &Built) {
             let m = 1u8 << bit;
             file[i] ^= m;
             let trace = format!("bit;{};byte={i};mask={m}", b.spec.tag());
-            run_corrupt(ctx, b, &file, usize::MAX, if i < 20 { "header_bit" } else { "key_bit" }, &trace);
+            run_corrupt(
+                ctx,
+                b,
+                &file,
+                usize::MAX,
+                if i < 20 { "header_bit" } else { "key_bit" },
+                &trace,
+            );
             file[i] ^= m;
         }
     }
@@ -545,7 +673,11 @@ fn run_set(ctx: &Ctx, spec: SetSpec, max_degree: usize) {
     if spec.start.is_none() && spec.rot == spec.h {
         ctx.sample(format!(
             "{}: {} keys, stream {} bytes, {} pre-crash cookies ({} still valid at store time)",
-            spec.tag(), b.n(), b.stream.len(), b.pre.len(), b.pre.iter().filter(|c| b.pre_valid(c)).count()
+            spec.tag(),
+            b.n(),
+            b.stream.len(),
+            b.pre.len(),
+            b.pre.iter().filter(|c| b.pre_valid(c)).count()
         ));
     }
 }
@@ -556,18 +688,30 @@ fn run_set(ctx: &Ctx, spec: SetSpec, max_degree: usize) {
 
 fn replay(ctx: &Ctx, trace: &str) -> String {
     let parts: Vec<&str> = trace.split(';').collect();
-    let Some(spec) = SetSpec::parse(&parts) else { return "bad trace".into() };
+    let Some(spec) = SetSpec::parse(&parts) else {
+        return "bad trace".into();
+    };
     let b = build_set(spec);
     let num = |n: &str| field(&parts, n).and_then(|v| v.parse::<usize>().ok());
     match parts[0] {
         "prefix" => {
             let k = num("k").unwrap_or(0).min(b.stream.len());
-            let chunk = match num("chunk") { Some(0) | None => usize::MAX, Some(c) => c };
+            let chunk = match num("chunk") {
+                Some(0) | None => usize::MAX,
+                Some(c) => c,
+            };
             prefix_case(ctx, &b, k, chunk)
         }
         "hdr" => {
             let f = HdrFault::parse(&parts);
-            run_corrupt(ctx, &b, &f.apply(&b.stream), usize::MAX, "header_field", trace)
+            run_corrupt(
+                ctx,
+                &b,
+                &f.apply(&b.stream),
+                usize::MAX,
+                "header_field",
+                trace,
+            )
         }
         "bit" => {
             let mut file = b.stream.clone();
@@ -576,12 +720,20 @@ fn replay(ctx: &Ctx, trace: &str) -> String {
             run_corrupt(ctx, &b, &file, usize::MAX, "bit", trace)
         }
         "wfail" => {
-            let per = match num("per") { Some(0) | None => usize::MAX, Some(c) => c };
+            let per = match num("per") {
+                Some(0) | None => usize::MAX,
+                Some(c) => c,
+            };
             let mut w = LogWriter::new(per, num("k"));
             let r = common::catch(|| b.prov.store(&mut w));
-            let ok = matches!(r, Ok(Err(_))) == num("k").is_some() && w.bytes.len() == num("k").unwrap_or(b.stream.len());
+            let ok = matches!(r, Ok(Err(_))) == num("k").is_some()
+                && w.bytes.len() == num("k").unwrap_or(b.stream.len());
             if !ok {
-                ctx.violation("C27:store-stream-depends-on-writer", format!("{r:?} / {} bytes", w.bytes.len()), trace);
+                ctx.violation(
+                    "C27:store-stream-depends-on-writer",
+                    format!("{r:?} / {} bytes", w.bytes.len()),
+                    trace,
+                );
             }
             format!("store={:?} written={}", r.map(|x| x.is_ok()), w.bytes.len())
         }
@@ -626,7 +778,9 @@ fn check() {
     specs.sort_by_key(|s| (s.h.min(s.rot), s.start.is_some(), s.rot, s.h));
     let first = specs.remove(0);
     run_set(&ctx, first, max_degree);
-    common::par_for(specs.len() as u64, 1, |i| run_set(&ctx, specs[i as usize], max_degree));
+    common::par_for(specs.len() as u64, 1, |i| {
+        run_set(&ctx, specs[i as usize], max_degree)
+    });
     ctx.exhaustive(true);
     ctx.finish();
 }
